@@ -467,6 +467,16 @@ func replayMain(p *Property) int {
 		fmt.Printf("NOT REPRODUCED: property=%s clause=%s no longer fails on this tree\n", rf.Property, rf.Clause)
 		return 0
 	}
+	if rf.Cfg.Prop == "C17Q" {
+		res := layerQ(rf.Seed, *fTier, true)
+		clause, msg := c17qCheck(res)
+		if clause == "" {
+			fmt.Printf("NOT REPRODUCED: property=%s clause=%s no longer fails on this tree\n", rf.Property, rf.Clause)
+			return 0
+		}
+		fmt.Printf("REPRODUCED clause=%s: %s\nVIOLATION property=%s replay=%s\n", clause, msg, rf.Property, *fReplay)
+		return 1
+	}
 	if rf.Cfg.Prop == "C04Q" {
 		res := c04LayerQ(rf.Seed, *fTier)
 		clause, msg, _ := c04Check(res)
